@@ -74,26 +74,21 @@ def outOut : NamesHist.Out Float → String
   | .done => "done"
   | .missing => "missing"
 
-/-- run the requests with the live configuration; one answer per request -/
-def runHist (c : Ctx Float) : NamesHist.Reg Float → List HReq → NamesHist.Reg Float × List String
-  | r, [] => (r, [])
-  | r, .op o :: rest =>
-    let (r1, out) := NamesHist.step regCfg c.pre c.lut r o
-    let (r2, outs) := runHist c r1 rest
-    (r2, outOut out :: outs)
-  | r, .unit name :: rest =>
-    if name == 0 then
-      let (r2, outs) := runHist c r rest
-      (r2, "one" :: outs)
-    else
-      match Names.nameToSymbol c.globals c.inv c.rewritten (Names.parserRewrite name) with
-      | none =>
-        let (r2, outs) := runHist c r rest
-        (r2, "none" :: outs)
-      | some s =>
-        let (r1, out) := NamesHist.step regCfg c.pre c.lut r (.look s)
-        let (r2, outs) := runHist c r1 rest
-        (r2, (Name.toString s ++ "=" ++ outOut out) :: outs)
+def HReq.toOp : HReq → NamesHist.OpS Float
+  | .unit n => .unit n
+  | .op o => .op o
+
+def outSOut : NamesHist.OutS Float → String
+  | .unit (some (.sym s e)) => Name.toString s ++ "=" ++ entryOut e
+  | .unit (some .one) => "one"
+  | .unit none => "none"
+  | .out o => outOut o
+
+/-- run the requests through `NamesHist.runS` (string cache, look-up with write-back, edits, reloads)
+    with the live configurations; one answer per request -/
+def runHist (c : Ctx Float) (r : NamesHist.RegS Float) (reqs : List HReq) : NamesHist.RegS Float × List String :=
+  let (r2, outs) := NamesHist.runS regCfg regCacheCfg ⟨c.globals, c.inv, c.rewritten, c.pre⟩ c.lut r (reqs.map HReq.toOp)
+  (r2, outs.map outSOut)
 
 end C14Ops
 
@@ -132,8 +127,8 @@ def opsC14 : Handler := fun st fields =>
       if start == "full" then some ctxF.lut else if start == "empty" then some .leaf else none
     match base, reqs.mapM parseHReq with
     | some b, some rs =>
-      let (r, outs) := runHist ctxF (NamesHist.fresh b) rs
-      let der := ",".intercalate (r.derived.map Name.toString)
+      let (r, outs) := runHist ctxF (NamesHist.freshS b) rs
+      let der := ",".intercalate (r.reg.derived.map Name.toString)
       some (st, "ok\t" ++ der ++ "\t" ++ "\t".intercalate outs)
     | _, _ => some (st, "bad-request")
   | ["c14.ref", name] => some (st, verdictOut (Name.ofString name))
